@@ -41,3 +41,15 @@ Theorem C08_P_is_pareto_of_means_and_every_design_sampled_each_round :
   naive_P_is_pareto_of_sample_means /\ naive_run_one_step = StepMachine.prog_naive.
 Proof. split; [exact I | reflexivity]. Qed.
 Print Assumptions C08_P_is_pareto_of_means_and_every_design_sampled_each_round.
+
+(* the observations NaiveElimination averages are observations of the designs themselves: evaluating the design matrix through
+   the regenerated ProblemFromDataset.evaluate returns row k of the objective table for design k, for EVERY number of
+   (pairwise distinct) designs *)
+From VOPy Require Problem ExtraRefine.
+From VOPyGen Require Gen_extra.
+Theorem C08_design_k_is_observed_at_design_k : forall (X Y : list vec) (L : mat) (draws : list vec) (k : nat), length Y = length X ->
+  (forall i j, (i < length X)%nat -> (j < length X)%nat -> (Problem.sqdist (nth i X []) (nth j X []) == 0)%Q -> i = j) ->
+  (k < length X)%nat ->
+  nth k (Gen_extra.gen_pfd_evaluate X Y L X false draws) [] = nth k Y [].
+Proof. exact ExtraRefine.gen_pfd_evaluate_on_designs. Qed.
+Print Assumptions C08_design_k_is_observed_at_design_k.
